@@ -5,7 +5,8 @@ package corr
 // Getter.Get (integers; durations as ns; floats as IEEE bit patterns; times as UnixNano).
 //
 // ops
-//   bindL ssrc=S rate=R | bindR ssrc=S rate=R
+//   bindL ssrc=S rate=R [tcc=ID] | bindR ssrc=S rate=R     (tcc: the StreamInfo carries a negotiated transport-cc header
+//                                                            extension with that id; the stats interceptor does not read it)
 //   rtpOut via=S ssrc=H seq=N ts=T cc=C xp=P xs=L pl=K     (header shape: C CSRCs, extension
 //   rtpIn  via=S ssrc=H seq=N ts=T cc=C xp=P xs=L pl=K a=M   profile P 0 none/1 one-byte/2 two-byte/
 //                                                             3 other, extension payload lengths L)
@@ -17,6 +18,16 @@ package corr
 // payload-1 — at unchanged length.  The unchanged stats recorder parses the header only (Attributes.GetRTPHeader) and
 // counts header bytes = the header's MarshalSize and bytes = everything after it, padding included, so `pl` of such a
 // packet is payload + padding and the model has nothing to learn.
+// The ambient may also put the stats interceptor into a CHAIN (o.Wrap; class `chain` and a quarter of all other cases).
+// "bytes / header bytes sent equal a recount of the packets that passed through": what is recounted is the packet as it
+// was handed to the stats interceptor, so the model stays the component's own whatever its neighbours do afterwards.
+// BELOW it on the write path sits the one interceptor of the library that edits the header it is handed in a
+// size-changing way — the TWCC header extension (`hdr`; `bindL … tcc=ID` negotiates the extension, the packets written
+// do not carry it yet, or carry an element with that id and another length) — alone or with transparent members
+// (NoOp, packetdump, rtpfb, a NACK responder without a nack stream, a second stats interceptor); ABOVE it only
+// transparent members (a member above that edits the header would change what passes through).  The same chain is
+// transparent on the read paths and for RTCP.  The bottom RTP writer may refuse chosen calls (`failrtp=`): a packet
+// that passed through is counted whatever happens to it further down.
 // a=M: the attributes the *caller* passes: nil | fresh | stale (the map of the previous call,
 // still holding that call's parse cache).  The inner reader always returns a new empty map.
 // PKT: SR:ssrc:ntp:pc:oc:B  RR:ssrc:B  (B: `-` or blocks `ssrc/fl/tl/lsn/jit/lsr/dlsr` joined by +)
@@ -334,11 +345,12 @@ func c19run(t *testing.T, ops []string, o *Out) {
 	}
 	var getter stats.Getter
 	f.OnNewPeerConnection(func(_ string, g stats.Getter) { getter = g })
-	icpt, err := f.NewInterceptor("c19")
+	icpt0, err := f.NewInterceptor("c19")
 	if err != nil || getter == nil {
 		o.P("err:new")
 		return
 	}
+	icpt := o.Wrap(icpt0) // the case's ambient: the stats interceptor as one member of a chain (ambient_test.go)
 	var pending []byte
 	pendingErr := false
 	// a clock advance that is directly followed by a read is spent INSIDE the wrapped reader (a blocking
@@ -351,7 +363,7 @@ func c19run(t *testing.T, ops []string, o *Out) {
 			return 0, nil, errC19Read
 		}
 		n := copy(b, pending)
-		return n, interceptor.Attributes{}, nil
+		return n, o.Bottom(interceptor.Attributes{}), nil
 	}
 	rtcpR := icpt.BindRTCPReader(interceptor.RTCPReaderFunc(inner))
 	rtcpW := icpt.BindRTCPWriter(interceptor.RTCPWriterFunc(func(p []rtcp.Packet, _ interceptor.Attributes) (int, error) { return len(p), nil }))
@@ -391,11 +403,18 @@ func c19run(t *testing.T, ops []string, o *Out) {
 				continue
 			}
 			info := &interceptor.StreamInfo{SSRC: uint32(ssrc), ClockRate: uint32(rate)}
+			if id, ok := c19u(m["tcc"], 8); ok && id >= 1 && name == "bindL" { // a negotiated transport-cc extension (read by neighbours only)
+				info.RTPHeaderExtensions = []interceptor.RTPHeaderExtension{{URI: c12TwccURI, ID: int(id)}}
+			}
 			if name == "bindL" {
-				lw[uint32(ssrc)] = icpt.BindLocalStream(info, interceptor.RTPWriterFunc(
-					func(_ *rtp.Header, p []byte, _ interceptor.Attributes) (int, error) { return len(p), nil }))
+				o.InfoGuard("BindLocalStream", info, func() {
+					lw[uint32(ssrc)] = icpt.BindLocalStream(info, interceptor.RTPWriterFunc(
+						func(_ *rtp.Header, p []byte, _ interceptor.Attributes) (int, error) { return len(p), o.RTPWriteErr() }))
+				})
 			} else {
-				rr[uint32(ssrc)] = icpt.BindRemoteStream(info, interceptor.RTPReaderFunc(inner))
+				o.InfoGuard("BindRemoteStream", info, func() {
+					rr[uint32(ssrc)] = icpt.BindRemoteStream(info, interceptor.RTPReaderFunc(inner))
+				})
 			}
 			synctest.Wait() // the goroutine that calls rec.Start() has run
 		case "rtpOut":
@@ -406,7 +425,7 @@ func c19run(t *testing.T, ops []string, o *Out) {
 				o.P("bad-op")
 				continue
 			}
-			_, _ = w.Write(h, make([]byte, pl), interceptor.Attributes{})
+			_, _ = w.Write(h, make([]byte, pl), o.Attrs(interceptor.Attributes{}))
 		case "rtpIn":
 			via, ok := c19u(m["via"], 32)
 			h, pl, ok2 := c19header(m)
@@ -831,18 +850,78 @@ func (g *c19gen) get() {
 
 // c19gencase: the classes of c19genplain, a quarter of them with wire shapes on the incoming RTP, and the class
 // `padding`: incoming-RTP-heavy traffic (counts / wrap / mixed / lifecycle) of short packets, all of them shaped.
+//
+// Class `chain` (and a quarter of the other cases): the stats interceptor as a member of a chain, see the head of the file.
 func c19gencase(r *Rng, tier string, idx int) Case {
-	if idx%9 == 8 {
+	k := idx % 10
+	if k == 8 {
 		cs := c19genplain(r, tier, r.Pick(0, 0, 1, 6, 7), true)
 		cs.Class = "padding"
 		cs.Ops = append([]string{ambWith(ambOp("", "", false, false, false, false), ambShapes(r))}, cs.Ops...)
 		return cs
 	}
-	cs := c19genplain(r, tier, idx-idx/9, false)
+	if k == 9 {
+		cs := c19genplain(r, tier, r.Pick(0, 0, 2, 5, 7, 7), false) // counts, rtt, clock, mixed: outgoing RTP in all of them
+		cs.Class = "chain"
+		cs.Ops = c19chain(r, cs.Ops, true, "")
+		return cs
+	}
+	cs := c19genplain(r, tier, idx/10*8+k, false)
+	shapes := ""
 	if r.Chance(1, 4) {
-		cs.Ops = append([]string{ambWith(ambOp("", "", false, false, false, false), ambShapes(r))}, cs.Ops...)
+		shapes = ambShapes(r)
+	}
+	if r.Chance(1, 4) {
+		cs.Ops = c19chain(r, cs.Ops, r.Chance(2, 3), shapes)
+	} else if shapes != "" {
+		cs.Ops = append([]string{ambWith(ambOp("", "", false, false, false, false), shapes)}, cs.Ops...)
 	}
 	return cs
+}
+
+// c19chain puts the case into a chain: below the stats interceptor (nearer to the transport) the TWCC header
+// extension interceptor (when `hdr`; every local stream then negotiates the extension) and transparent members,
+// above it transparent members only.
+func c19chain(r *Rng, ops []string, hdr bool, shapes string) []string {
+	closes := false
+	for _, op := range ops {
+		closes = closes || op == "close"
+	}
+	below := []string{"", "noop", "dumps", "rtpfb", "resp", "stats", "dumpr"}
+	above := []string{"", "", "noop", "dumps", "rtpfb", "resp", "stats", "dumpr"}
+	if closes { // traffic after Close: only members without a closed state of their own
+		below, above = []string{"", "noop"}, []string{"", "noop"}
+	}
+	var before []string
+	if x := below[r.Intn(len(below))]; x != "" {
+		before = append(before, x)
+	}
+	if hdr {
+		before = append(before, "hdr")
+		if x := below[r.Intn(len(below))]; x != "" && r.Chance(1, 3) {
+			before = append(before, x)
+		}
+		if r.Bool() { // the extension interceptor directly below, or next to the transport
+			before[0], before[len(before)-1] = before[len(before)-1], before[0]
+		}
+		// the negotiated id: one no generated packet carries (5, 14), or one some packets carry already (1..3)
+		id := r.Pick(5, 5, 14, 1, 2, 3)
+		for i, op := range ops {
+			if strings.HasPrefix(op, "bindL ") && !r.Chance(1, 8) {
+				ops[i] = fmt.Sprintf("%s tcc=%d", op, id)
+			}
+		}
+	}
+	amb := ambOp(strings.Join(before, ","), above[r.Intn(len(above))], true, false, r.Chance(1, 6), false)
+	fail := ""
+	if r.Chance(1, 4) {
+		fail = "failrtp=" + []string{"1", "2,3", "%2", "%3", "1,%4"}[r.Intn(5)]
+	}
+	attrs := ""
+	if r.Chance(1, 3) {
+		attrs = "attrs=1"
+	}
+	return append([]string{ambWith(amb, shapes, fail, attrs)}, ops...)
 }
 
 func c19genplain(r *Rng, tier string, idx int, smallPl bool) Case {
